@@ -87,7 +87,7 @@ const char *call_kinds[] = {"scalar.tagged", "scalar.external", "scalar.chained"
                             "rle.rt",        "rleh.rt",         "elias.gamma",    "elias.delta",
                             "bp128.32",      "bp128.64",        "bp128d.32",      "bp128d.64",
                             "float.rt",      "adaptive.rt",     "adaptive.forced", "packed.slice",
-                            "bitstream.slice", "decode.bad",     "cells.external",   "packed.member"};
+                            "bitstream.slice", "decode.bad",     "cells.external",   "packed.member",  "adaptive.analyze"};
 
 Xform xform_of(const std::string &k, uint64_t enc) {
     if (k == "elias.gamma" || k == "elias.delta") return X_GE1;
@@ -392,6 +392,27 @@ uint64_t run_call(const Op &c, Shared &sh, int slice, int nslices) {
             d.u64(varintAdaptiveDecode(big.data(), out.data(), n, nullptr));
             dig(d, out, n * 8);
         }
+    } else if (k == "adaptive.analyze") {
+        // the analysis entry points are public API of the pure codecs too
+        Lib l;
+        varintAdaptiveDataStats st;
+        memset(&st, 0, sizeof st);
+        varintAdaptiveAnalyze(in, n, &st);
+        d.u64(st.count);
+        d.u64(st.minValue);
+        d.u64(st.maxValue);
+        d.u64(st.range);
+        d.u64(st.uniqueCount);
+        d.u64(st.avgDelta);
+        d.u64(st.maxDelta);
+        d.u64(st.outlierCount);
+        d.bytes(&st.uniqueRatio, sizeof st.uniqueRatio);
+        d.bytes(&st.outlierRatio, sizeof st.outlierRatio);
+        d.u64(st.isSorted);
+        d.u64(st.isReverseSorted);
+        d.u64(st.fitsInBitmapRange);
+        d.u64(varintAdaptiveCountUnique(in, n));
+        d.u64((uint64_t)varintAdaptiveSelectEncoding(&st));
     } else if (k == "decode.bad") {
         // the length-taking decoders on truncated / corrupted encodings: their failure exits are
         // as much part of "stateless" as their success paths
@@ -508,7 +529,7 @@ class FiberEngine : public Engine {
         if (r.chance(1, 12)) ntasks = 16;
         // 1 run in 300: few tasks, few calls, but inputs of thousands of elements - code paths that
         // exist only above a size threshold (sampling above 10000 values, bulk paths above 4096)
-        bool bigrun = r.chance(1, 300);
+        bool bigrun = r.chance(1, 200);
         if (bigrun) ntasks = r.range(2, 3);
         size_t ninputs = r.range(1, std::min<size_t>(ntasks, 4));
         switch (r.below(8)) {
@@ -543,7 +564,7 @@ class FiberEngine : public Engine {
             int cls = (int)r.below(ARR_NCLASSES);
             if (bigrun) {
                 n = r.chance(1, 2) ? r.range(4096, 4600) : r.range(10001, 10200);
-                static const int big_cls[] = {ARR_POOL, ARR_FULL64, ARR_CLUSTERED, ARR_LOWCARD, -1, -1};
+                static const int big_cls[] = {ARR_POOL, ARR_FULL64, ARR_CLUSTERED, ARR_LOWCARD, ARR_PERIODIC, ARR_PERIODIC, ARR_PERIODIC, -1, -1};
                 cls = r.pick(big_cls);
             }
             if (cls < 0) { // unsorted values inside one narrow window at an arbitrary base
@@ -558,8 +579,8 @@ class FiberEngine : public Engine {
         // a run focuses on a few call kinds so that several tasks are inside the same function
         std::vector<std::string> menu;
         size_t nk = r.range(1, 4);
-        static const char *big_kinds[] = {"adaptive.rt", "adaptive.rt", "adaptive.forced", "dict.rt", "dict.rt", "pfor.rt",
-                                          "for.rt", "rle.rt", "bp128.64", "bp128d.64", "deltau.rt"};
+        static const char *big_kinds[] = {"adaptive.rt", "adaptive.rt", "adaptive.analyze", "adaptive.analyze", "adaptive.forced", "dict.rt",
+                                          "dict.rt", "pfor.rt", "for.rt", "rle.rt", "bp128.64", "bp128d.64", "deltau.rt"};
         if (bigrun) nk = r.range(1, 2);
         for (size_t i = 0; i < nk; i++) menu.push_back(bigrun ? std::string(r.pick(big_kinds)) : std::string(r.pick(call_kinds)));
         for (size_t t = 0; t < ntasks; t++) {
